@@ -5,6 +5,10 @@
   loop).  Helper lemmas: `RotoV/Lemmas/Tarjan.lean`.
 
   Shape of the argument
+  * `order_topological`: `tarjan` as written returns a complete, duplicate-free
+    partition in reverse topological order, for every graph (invariant proof in
+    `Lemmas/TarjanOrder`); with it T2 and T4 hold without any certificate
+    (`cycle_rejected_semantic`, `evaluated_once_in_order`).
   * `validOrder` is a *verified checker*: whatever components it accepts are a
     complete, duplicate-free partition in reverse topological order
     (`validOrder_sound`).  Every run of `./check C14` executes it on the
@@ -21,20 +25,42 @@ import RotoV.Lemmas.Tarjan
 import RotoV.Lemmas.TarjanCtx
 import RotoV.Lemmas.TarjanNoPanic
 import RotoV.Lemmas.TarjanLir
+import RotoV.Lemmas.TarjanOrder
 
 namespace RotoV.C14
 open RotoV.Tarjan
 
 /-! ## T1 — the order is topological and complete -/
 
-/- FULL STATEMENT (proved only in checked-certificate form and on the bounded
-   instance below; totality — no panic, fuel suffices — is proved in general
-   (`tarjan_total`); what is missing is the invariant proof of Tarjan's
-   algorithm — stack/lowlink discipline — for arbitrary graphs):
+/-- **T1, for Tarjan's algorithm as written and every graph**: whatever
+`tarjan` returns is every name of the graph exactly once, and an edge never
+leads into a later component (reverse topological order).  Proved by the
+invariant of `strongly_connect` (`Lemmas/TarjanOrder`: visited = stack ∪
+components; stack indices increase towards the top; a call's lowlink is its own
+index or the index of a vertex below it, and bounds the index of every stack
+vertex below the call that anything the call left on the stack refers to).
+`hkeys` says that the association list is a `BTreeMap` (distinct keys). -/
+theorem order_topological (g : Graph) (hkeys : g.keys.Nodup) (comps : List (List Nat))
+    (h : tarjan g = .ok comps) : TopoOrder g comps :=
+  RotoV.Tarjan.tarjan_topo g hkeys comps h
 
-   theorem order_topological (g : Graph) (comps : List (List Nat))
-       (h : tarjan g = .ok comps) : TopoOrder g comps
--/
+/-- non-vacuity: the repository's first unit test graph -/
+example : (⟨[(1, [2]), (2, [3, 4]), (3, [2, 4]), (4, [])], fun _ => .func⟩ : Graph).keys.Nodup
+    ∧ tarjan ⟨[(1, [2]), (2, [3, 4]), (3, [2, 4]), (4, [])], fun _ => .func⟩ = .ok [[4], [3, 2], [1]] := by
+  decide
+/-- `hkeys` is needed: with a repeated key (not a `BTreeMap`) the second entry
+is never looked up, and its target is in no component -/
+example : tarjan ⟨[(0, []), (0, [1])], fun _ => .func⟩ = .ok [[0]]
+    ∧ (1 ∈ (⟨[(0, []), (0, [1])], fun _ => .func⟩ : Graph).nodes) := by decide
+
+/-- with totality: `tarjan` returns, and what it returns is such an order -/
+theorem order_topological_total (g : Graph) (hkeys : g.keys.Nodup) :
+    ∃ comps, tarjan g = .ok comps ∧ TopoOrder g comps := by
+  obtain ⟨comps, h⟩ := RotoV.Tarjan.tarjan_total' g
+  exact ⟨comps, h, RotoV.Tarjan.tarjan_topo g hkeys comps h⟩
+
+example : (⟨[(1, [3]), (2, []), (3, [4, 5]), (4, [2]), (5, [2])], fun _ => .func⟩ : Graph).keys.Nodup := by
+  decide
 
 /-- The verified checker: accepted components are complete (exactly the graph's
 names), duplicate-free, and every edge between different components leads to an
@@ -81,16 +107,13 @@ def tarjanValid (g : Graph) : Bool :=
   | .ok comps => validOrder g comps
   | .error _ => false
 
-/-- `order_topological` on every graph with three names (no panic, fuel
-suffices, output accepted by the verified checker). -/
-theorem order_topological_partial (m : Fin 512) :
-    ∃ comps, tarjan (smallGraph m) = .ok comps ∧ TopoOrder (smallGraph m) comps := by
+/-- the executable checker agrees with the theorem on every graph with three
+names (kernel evaluation of `tarjan` + `validOrder`; was the bounded form
+`order_topological_partial` before `order_topological` was proved) -/
+theorem order_topological_three_names (m : Fin 512) : tarjanValid (smallGraph m) = true := by
   have h : ∀ m : Fin 512, tarjanValid (smallGraph m) = true := by decide +kernel
-  have := h m
-  unfold tarjanValid at this
-  split at this
-  · next comps hc => exact ⟨comps, hc, RotoV.Tarjan.validOrder_sound _ _ this⟩
-  · cases this
+  exact h m
+example : tarjanValid (smallGraph 273) = true := by decide
 
 /-- the repository's own unit tests, on the model -/
 theorem tarjan_unit_tests :
@@ -128,10 +151,9 @@ theorem cycle_rejected (g : Graph) (comps : List (List Nat)) (ht : tarjan g = .o
 at least one reference (directly, through constants, through functions) is
 rejected before anything is evaluated. -/
 theorem cycle_rejected_of_valid (g : Graph) (comps : List (List Nat)) (ht : tarjan g = .ok comps)
-    (hv : validOrder g comps = true) (c d : Nat) (hk : g.kind c = .const)
+    (topo : TopoOrder g comps) (c d : Nat) (hk : g.kind c = .const)
     (e : Edge g c d) (r : Reach g d c) :
     ∃ c', g.kind c' = .const ∧ compile g = .ok (.rejected (.recursive c') []) := by
-  have topo := RotoV.Tarjan.validOrder_sound g comps hv
   obtain ⟨rs, hm, hrs⟩ := edge_mem_edges e
   by_cases hdc : d = c
   · subst hdc
@@ -152,6 +174,61 @@ theorem cycle_rejected_of_valid (g : Graph) (comps : List (List Nat)) (ht : tarj
       exact absurd rfl this
     · refine cycle_rejected g comps ht (Or.inr ⟨comp, hcomp, ?_, c, hcc, hk⟩)
       exact two_mem_length hcc hd (Ne.symm hdc)
+
+/-- **T2 in full, no certificate**: in every reference graph (distinct keys), a
+constant that reaches itself through at least one reference — directly, through
+constants, through functions — is rejected before anything is evaluated
+(`order_topological` supplies what the certificate supplied). -/
+theorem cycle_rejected_semantic (g : Graph) (hkeys : g.keys.Nodup) (c d : Nat)
+    (hk : g.kind c = .const) (e : Edge g c d) (r : Reach g d c) :
+    ∃ c', g.kind c' = .const ∧ compile g = .ok (.rejected (.recursive c') []) := by
+  obtain ⟨comps, ht, topo⟩ := order_topological_total g hkeys
+  exact cycle_rejected_of_valid g comps ht topo c d hk e r
+
+/-- **T2 as an equivalence, no certificate**: `compile` answers "constant `c` is
+recursively defined" (with nothing evaluated) exactly when some constant
+reaches itself through at least one reference, and the constant it names is
+one that does — in particular a DAG of constants over cycles of mutually
+recursive functions is never rejected this way, from whichever member the
+cycles are entered. -/
+theorem recursive_iff_cycle (g : Graph) (hkeys : g.keys.Nodup) :
+    ((∃ c, compile g = .ok (.rejected (.recursive c) [])) ↔
+      ∃ c d, g.kind c = .const ∧ Edge g c d ∧ Reach g d c) ∧
+    (∀ c log, compile g = .ok (.rejected (.recursive c) log) →
+      log = [] ∧ g.kind c = .const ∧ ∃ d, Edge g c d ∧ Reach g d c) := by
+  have back : ∀ c log, compile g = .ok (.rejected (.recursive c) log) →
+      log = [] ∧ g.kind c = .const ∧ ∃ d, Edge g c d ∧ Reach g d c := by
+    intro c log h
+    unfold compile at h
+    cases hf : findCompilationOrder g with
+    | error e => simp [hf, bind, Except.bind] at h
+    | ok o =>
+      cases o with
+      | order o =>
+        simp only [hf, bind, Except.bind] at h
+        cases hcg : codegen g o <;> simp [hcg] at h
+      | recursive c' =>
+        simp only [hf, bind, Except.bind, Except.ok.injEq, Compiled.rejected.injEq,
+          Outcome.recursive.injEq] at h
+        obtain ⟨hc, hl⟩ := h
+        subst hc
+        exact ⟨hl.symm, recursive_sound g hkeys c' hf⟩
+      | usesContext c' => simp [hf, bind, Except.bind] at h
+  refine ⟨⟨fun ⟨c, h⟩ => ?_, fun ⟨c, d, hk, e, r⟩ => ?_⟩, back⟩
+  · obtain ⟨_, hk, d, e, r⟩ := back c [] h
+    exact ⟨c, d, hk, e, r⟩
+  · obtain ⟨c', _, h⟩ := cycle_rejected_semantic g hkeys c d hk e r
+    exact ⟨c', h⟩
+
+/-- non-vacuity of the "never rejected" side: ring 1 ⇄ 2 entered through both members -/
+example : ¬ ∃ c, compile ⟨[(0, [2]), (1, [2]), (2, [1]), (3, [1])],
+    fun n => if n = 1 ∨ n = 2 then .func else .const⟩ = .ok (.rejected (.recursive c) []) := by
+  have : compile ⟨[(0, [2]), (1, [2]), (2, [1]), (3, [1])],
+      fun n => if n = 1 ∨ n = 2 then .func else .const⟩
+      = .ok (.compiled [1, 2, 0, 3] ⟨[3, 0, 2, 1], [], [0, 3], [0, 3]⟩) := by decide
+  rintro ⟨c, h⟩
+  rw [this] at h
+  cases h
 
 example : compile ⟨[(0, [1]), (1, [0])], fun _ => .const⟩ = .ok (.rejected (.recursive 1) []) := by decide
 example : compile ⟨[(0, [1]), (1, [2]), (2, [0])], fun n => if n = 1 then .func else .const⟩
@@ -261,14 +338,13 @@ runs every script constant's initialiser exactly once, a constant only after
 every script constant it reaches; all of this before `compile` returns (the log
 is final in the returned state, and reads do not touch it). -/
 theorem evaluated_once_after_deps (g : Graph) (comps : List (List Nat))
-    (hv : validOrder g comps = true) (hc : NoConstCycle g comps) :
+    (topo : TopoOrder g comps) (hc : NoConstCycle g comps) :
     ∃ st, codegen g comps.flatten = .ok st ∧
       st.log.Nodup ∧
       (∀ c, c ∈ st.log ↔ (c ∈ g.keys ∧ g.kind c = .const)) ∧
       (∀ c d, c ∈ st.log → d ∈ g.keys → g.kind d = .const → d ≠ c → Reach g c d → Before d c st.log) ∧
       st.store = st.log ∧ st.pending = [] ∧
       (∀ c, c ∈ g.keys → g.kind c = .const → readConstant st c = .ok st) := by
-  have topo := RotoV.Tarjan.validOrder_sound g comps hv
   obtain ⟨st, hrun, inv⟩ := cg_comps topo hc comps [] CgState.new (by simp)
     ⟨by simp [CgState.new, mirItems_eq], by simp [CgState.new, mirItems_eq], rfl, by simp [CgState.new]⟩
   have hlog : st.log = (mirItems g comps.flatten).filter g.isConst := by rw [inv.log, inv.store]
@@ -324,7 +400,7 @@ theorem evaluated_once_after_deps (g : Graph) (comps : List (List Nat))
 order and `tarjan`'s components pass the checker, `compile` succeeds with that
 order and the evaluation log has the properties above. -/
 theorem compile_evaluates_once (g : Graph) (comps : List (List Nat)) (o : List Nat)
-    (ht : tarjan g = .ok comps) (hv : validOrder g comps = true)
+    (ht : tarjan g = .ok comps) (topo : TopoOrder g comps)
     (ho : findCompilationOrder g = .ok (.order o)) :
     o = comps.flatten ∧ ∃ st, compile g = .ok (.compiled o st) ∧
       st.log.Nodup ∧
@@ -360,10 +436,30 @@ theorem compile_evaluates_once (g : Graph) (comps : List (List Nat)) (o : List N
       · match comp, hcc, hl with
         | [x], hcc, _ => simp at hcc; rw [hcc]
         | _ :: _ :: _, _, hl => simp at hl
-  obtain ⟨st, h1, h2, h3, h4, _, _, h7⟩ := evaluated_once_after_deps g comps hv hc
+  obtain ⟨st, h1, h2, h3, h4, _, _, h7⟩ := evaluated_once_after_deps g comps topo hc
   refine ⟨hoc, st, ?_, h2, h3, h4, h7⟩
   subst hoc
   simp [compile, ho, h1, bind, Except.bind]
+
+/-- **T4 in full, no certificate**: for every reference graph (distinct keys),
+whenever `find_compilation_order` returns an order, `compile` succeeds with it,
+every script constant's initialiser has run exactly once, a constant only after
+every script constant it reaches directly or through functions, all before
+`compile` returns; reading any constant afterwards leaves the log as it is. -/
+theorem evaluated_once_in_order (g : Graph) (hkeys : g.keys.Nodup) (o : List Nat)
+    (ho : findCompilationOrder g = .ok (.order o)) :
+    ∃ st, compile g = .ok (.compiled o st) ∧
+      st.log.Nodup ∧
+      (∀ c, c ∈ st.log ↔ (c ∈ g.keys ∧ g.kind c = .const)) ∧
+      (∀ c d, c ∈ st.log → d ∈ g.keys → g.kind d = .const → d ≠ c → Reach g c d → Before d c st.log) ∧
+      (∀ c, c ∈ g.keys → g.kind c = .const → readConstant st c = .ok st) := by
+  obtain ⟨comps, ht, topo⟩ := order_topological_total g hkeys
+  obtain ⟨_, st, h⟩ := compile_evaluates_once g comps o ht topo ho
+  exact ⟨st, h⟩
+
+/-- non-vacuity: constant 0 reads constant 1 through function 2 -/
+example : findCompilationOrder ⟨[(0, [2]), (1, []), (2, [1])], fun n => if n = 2 then .func else .const⟩
+    = .ok (.order [1, 2, 0]) := by decide
 
 /-- Completeness (the other half of "every constant is evaluated exactly once"):
 when the components pass the checker *and* are strongly connected (`validScc`),
@@ -381,29 +477,8 @@ theorem compile_accepts_valid (g : Graph) (comps : List (List Nat)) (hkeys : g.k
   simp only [validScc, Bool.and_eq_true, List.all_eq_true] at hv
   obtain ⟨hvo, hscc⟩ := hv
   have topo := RotoV.Tarjan.validOrder_sound g comps hvo
-  have hs : selfEdge g g.edges = none := by
-    cases h : selfEdge g g.edges with
-    | none => rfl
-    | some c =>
-      obtain ⟨hk, rs, hm, hr⟩ := selfEdge_inv g g.edges c h
-      have hl : g.edges.lookup c = some rs := lookup_of_mem_nodup g.edges c rs hkeys hm
-      have e : Edge g c c := by simp [Edge, Graph.refs, hl, hr]
-      exact absurd (Reach.refl c) (hacyc c c hk e)
-  have hm : mixedComponent g comps = none := by
-    cases h : mixedComponent g comps with
-    | none => rfl
-    | some c =>
-      obtain ⟨comp, hcomp, hl, hcc, hk⟩ := mixedComponent_inv g comps c h
-      have hnd : comp.Nodup := by
-        obtain ⟨pre, post, hsplit⟩ := List.append_of_mem hcomp
-        have := topo.nodup
-        rw [hsplit] at this
-        simp only [List.flatten_append, List.flatten_cons] at this
-        exact (List.nodup_append.1 (List.nodup_append.1 this).2.1).1
-      obtain ⟨y, hy, hyc⟩ := exists_ne_of_length hnd hl c
-      have sc := sccOk_sound g comp (hscc comp hcomp)
-      obtain ⟨m, e, r⟩ := (sc c y hcc hy).head_of_ne (Ne.symm hyc)
-      exact absurd (r.trans (sc y c hy hcc)) (hacyc c m hk e)
+  obtain ⟨hs, hm⟩ := cycle_tests_pass g hkeys comps topo
+    (fun comp hcomp => sccOk_sound g comp (hscc comp hcomp)) hacyc
   obtain ⟨r, hr, hiff, _⟩ := context_rejected_iff g
   have hrn : r = none := by
     cases r with
@@ -412,8 +487,70 @@ theorem compile_accepts_valid (g : Graph) (comps : List (List Nat)) (hkeys : g.k
   subst hrn
   have ho : findCompilationOrder g = .ok (.order comps.flatten) := by
     simp [findCompilationOrder, hs, ht, hm, hr, bind, Except.bind]
-  obtain ⟨_, st, h1, h2, h3, h4, _⟩ := compile_evaluates_once g comps comps.flatten ht hvo ho
+  obtain ⟨_, st, h1, h2, h3, h4, _⟩ := compile_evaluates_once g comps comps.flatten ht topo ho
   exact ⟨st, h1, h2, h3, h4⟩
+
+/-- **T1, second half, for the algorithm as written**: the members of every
+component `tarjan` returns reach each other — a component of more than one
+name is a genuine cycle, so `find_compilation_order` never reports a constant
+as recursive that is not. -/
+theorem components_strongly_connected (g : Graph) (comps : List (List Nat)) (h : tarjan g = .ok comps) :
+    ∀ c, c ∈ comps → ∀ x y, x ∈ c → y ∈ c → Reach g x y :=
+  RotoV.Tarjan.tarjan_scc g comps h
+
+example : tarjan ⟨[(1, [2]), (2, [3]), (3, [4]), (4, [1])], fun _ => .func⟩ = .ok [[4, 3, 2, 1]] := by decide
+
+/-- **Completeness in full, no certificate**: every reference graph (distinct
+keys) in which no constant reaches itself and no script constant reaches a
+context variable is accepted — whatever cycles of mutually recursive functions
+it has and however the names are ordered — and evaluated once each in
+dependency order. -/
+theorem compile_accepts_acyclic (g : Graph) (hkeys : g.keys.Nodup)
+    (hacyc : ∀ c d, g.kind c = .const → Edge g c d → ¬ Reach g d c)
+    (hctx : ¬ ∃ c, c ∈ g.keys ∧ g.kind c = .const ∧ UsesCtx g c) :
+    ∃ o st, compile g = .ok (.compiled o st) ∧
+      st.log.Nodup ∧
+      (∀ c, c ∈ st.log ↔ (c ∈ g.keys ∧ g.kind c = .const)) ∧
+      (∀ c d, c ∈ st.log → d ∈ g.keys → g.kind d = .const → d ≠ c → Reach g c d → Before d c st.log) ∧
+      (∀ c, c ∈ g.keys → g.kind c = .const → readConstant st c = .ok st) := by
+  obtain ⟨comps, ht, topo⟩ := order_topological_total g hkeys
+  obtain ⟨hs, hm⟩ := cycle_tests_pass g hkeys comps topo (RotoV.Tarjan.tarjan_scc g comps ht) hacyc
+  obtain ⟨r, hr, hiff, _⟩ := context_rejected_iff g
+  have hrn : r = none := by
+    cases r with
+    | none => rfl
+    | some c => exact absurd (hiff.1 rfl) hctx
+  subst hrn
+  have ho : findCompilationOrder g = .ok (.order comps.flatten) := by
+    simp [findCompilationOrder, hs, ht, hm, hr, bind, Except.bind]
+  obtain ⟨st, h⟩ := evaluated_once_in_order g hkeys comps.flatten ho
+  exact ⟨comps.flatten, st, h⟩
+
+/-- non-vacuity: two mutually recursive functions 1 ⇄ 2, constants 0 → 2 and
+3 → 1 entering the ring through either member (the shape a stale on-stack flag
+turns into a bogus "recursively defined"), constant 4 → 0: accepted, in order -/
+example : (compile ⟨[(0, [2]), (1, [2]), (2, [1]), (3, [1]), (4, [0])],
+    fun n => if n = 1 ∨ n = 2 then .func else .const⟩).map
+      (fun r => match r with | .compiled o st => (o, st.log) | .rejected _ _ => ([], [])) =
+    .ok ([1, 2, 0, 3, 4], [0, 3, 4]) := by decide
+
+/-- **Context use in full, no certificate**: when no constant reaches itself,
+`compile` rejects with `usesContext c` — nothing evaluated — exactly when some
+script constant transitively reads a context variable, and the `c` it names
+is one. -/
+theorem context_rejected_acyclic (g : Graph) (hkeys : g.keys.Nodup)
+    (hacyc : ∀ c d, g.kind c = .const → Edge g c d → ¬ Reach g d c) :
+    ((∃ c, c ∈ g.keys ∧ g.kind c = .const ∧ UsesCtx g c) ↔
+      ∃ c, compile g = .ok (.rejected (.usesContext c) [])) ∧
+    (∀ c, compile g = .ok (.rejected (.usesContext c) []) →
+      c ∈ g.keys ∧ g.kind c = .const ∧ UsesCtx g c) := by
+  obtain ⟨comps, ht, topo⟩ := order_topological_total g hkeys
+  obtain ⟨hs, hm⟩ := cycle_tests_pass g hkeys comps topo (RotoV.Tarjan.tarjan_scc g comps ht) hacyc
+  exact context_rejected g comps ht hs hm
+
+example : compile ⟨[(0, [1]), (1, [2, 3]), (2, [1])],
+    fun n => if n = 0 then .const else if n = 3 then .ctx else .func⟩
+    = .ok (.rejected (.usesContext 0) []) := by decide
 
 example : validScc ⟨[(1, [2]), (2, [3, 4]), (3, [2, 4]), (4, [])], fun _ => .func⟩ [[4], [3, 2], [1]] = true := by
   decide
@@ -439,16 +576,16 @@ theorem edgesSubset_sound (t i : Graph) (h : edgesSubset t i = true) :
     ∀ u v, Edge t u v → Edge i u v :=
   RotoV.Tarjan.edgesSubset_sound t i h
 
-/-- If the collected graph `i` has every edge of the real structure `t` (same
-kinds, every real constant is a key), then a constant that really reads a
-context variable — directly, as a method receiver, through constants, through
-any chain of functions — makes `compile` reject, with nothing evaluated. -/
-theorem complete_edges_reject_context (t i : Graph) (hsub : edgesSubset t i = true)
+/-- If every dependency of the real structure `t` is an edge of the collected
+graph `i` (same kinds, every real constant is a key), then a constant that
+really reads a context variable — directly, as a method receiver, through
+constants, through any chain of functions — makes `compile` reject, with
+nothing evaluated. -/
+theorem real_edges_reject_context (t i : Graph) (hedge : ∀ a b, Edge t a b → Edge i a b)
     (hkind : ∀ x, t.kind x = i.kind x) (hkeys : ∀ c, c ∈ t.keys → c ∈ i.keys)
     (hc : ∃ c, c ∈ t.keys ∧ t.kind c = .const ∧ UsesCtx t c) :
     ∃ o, compile i = .ok (.rejected o []) := by
   obtain ⟨c, hck, hcc, hu⟩ := hc
-  have hedge := RotoV.Tarjan.edgesSubset_sound t i hsub
   have hu' : UsesCtx i c := hu.mono hedge (fun x hx => by rw [← hkind x]; exact hx)
   obtain ⟨comps, ht⟩ := tarjan_total i
   cases hs : selfEdge i i.edges with
@@ -461,15 +598,22 @@ theorem complete_edges_reject_context (t i : Graph) (hsub : edgesSubset t i = tr
         ⟨c, hkeys c hck, by rw [← hkind c]; exact hcc, hu'⟩
       exact ⟨_, h'⟩
 
+/-- the same with the executable comparison the driver runs on every generated
+program (`edgesSubset`, what `c14 tie` decides) as the hypothesis -/
+theorem complete_edges_reject_context (t i : Graph) (hsub : edgesSubset t i = true)
+    (hkind : ∀ x, t.kind x = i.kind x) (hkeys : ∀ c, c ∈ t.keys → c ∈ i.keys)
+    (hc : ∃ c, c ∈ t.keys ∧ t.kind c = .const ∧ UsesCtx t c) :
+    ∃ o, compile i = .ok (.rejected o []) :=
+  real_edges_reject_context t i (RotoV.Tarjan.edgesSubset_sound t i hsub) hkind hkeys hc
+
 /-- likewise for cycles: a real cycle through a constant is a cycle of the
-collected graph, hence rejected (given the certificate for `i`'s components) -/
+collected graph, hence rejected (no certificate needed any more: `cycle_rejected_semantic`) -/
 theorem complete_edges_reject_cycle (t i : Graph) (hsub : edgesSubset t i = true)
-    (hkind : ∀ x, t.kind x = i.kind x) (comps : List (List Nat)) (ht : tarjan i = .ok comps)
-    (hv : validOrder i comps = true) (c d : Nat) (hk : t.kind c = .const)
+    (hkind : ∀ x, t.kind x = i.kind x) (hkeys : i.keys.Nodup) (c d : Nat) (hk : t.kind c = .const)
     (e : Edge t c d) (r : Reach t d c) :
     ∃ c', i.kind c' = .const ∧ compile i = .ok (.rejected (.recursive c') []) := by
   have hedge := RotoV.Tarjan.edgesSubset_sound t i hsub
-  exact cycle_rejected_of_valid i comps ht hv c d (by rw [← hkind c]; exact hk) (hedge c d e) (r.mono hedge)
+  exact cycle_rejected_semantic i hkeys c d (by rw [← hkind c]; exact hk) (hedge c d e) (r.mono hedge)
 
 /-- the method-receiver shape: constant 0 calls f1, f1 reads context 2 only as
 `ctxvar.method()`.  With the edge the program is rejected; a collected graph
